@@ -21,8 +21,15 @@ func init() {
 func runConc(c Case) interface{} {
 	jobs := asList(c["jobs"])
 	files := map[string]string{}
+	// template names: t0, t1, ... or the case's own list (names that are string prefixes of one another without being path prefixes)
+	tname := func(i int) string {
+		if ns := asList(c["names"]); i < len(ns) {
+			return ns[i].(string)
+		}
+		return fmt.Sprintf("t%d", i)
+	}
 	for i, j := range jobs {
-		files[fmt.Sprintf("t%d", i)] = pugDoc(asList(asJ(j)["doc"]))
+		files[tname(i)] = pugDoc(asList(asJ(j)["doc"]))
 	}
 	debug, _ := c["debug"].(bool)
 	manifest, _ := c["manifest"].(string)
@@ -37,7 +44,7 @@ func runConc(c Case) interface{} {
 	// sequential baseline
 	base := make([]Result, len(jobs))
 	for i, j := range jobs {
-		base[i] = eng.Render(context.Background(), fmt.Sprintf("t%d", i), deepCopyJ(asJ(j)["data"]))
+		base[i] = eng.Render(context.Background(), tname(i), deepCopyJ(asJ(j)["data"]))
 	}
 	n := int(c["n"].(float64))
 	rounds := int(c["rounds"].(float64))
@@ -63,7 +70,7 @@ func runConc(c Case) interface{} {
 				for k := 0; k < 3; k++ {
 					i := (g + k) % len(jobs)
 					who := fmt.Sprintf("g%d-%d-r%d", g, k, r)
-					res := eng.Render(context.WithValue(context.Background(), whoKey{}, who), fmt.Sprintf("t%d", i), datas[g][k])
+					res := eng.Render(context.WithValue(context.Background(), whoKey{}, who), tname(i), datas[g][k])
 					// the baseline was rendered without a caller name; this call must see its own
 					want := strings.ReplaceAll(base[i].Out, "who:nobody;", "who:"+who+";")
 					mu.Lock()
@@ -159,7 +166,17 @@ func genC08(r *Rng, n int, tier string, emit func(Case)) {
 		if useAsset {
 			manifest = `{"app.js":"app.3f2a.js","x.css":"x.77.css"}`
 		}
-		emit(Case{"kind": "conc", "manifest": manifest, "jobs": jobs, "n": ng, "rounds": rounds, "debug": debug, "bucket": fmt.Sprintf("%s N=%d", mode, ng), "njobs": k})
+		var names []interface{}
+		if rr.Chance(1, 2) {
+			// a debug-mode render reloads what its own name selects: names that are prefixes of each other as strings
+			// (prod / product / product.partial/x) and as paths (shop / shop/cart) are loaded side by side
+			pool := []string{"prod", "product", "products", "product.partial/x", "prod/detail", "p", "shop", "shop/cart", "shopping"}
+			off := rr.Intn(len(pool))
+			for j := 0; j < k; j++ {
+				names = append(names, pool[(off+j)%len(pool)])
+			}
+		}
+		emit(Case{"kind": "conc", "manifest": manifest, "jobs": jobs, "names": names, "n": ng, "rounds": rounds, "debug": debug, "bucket": fmt.Sprintf("%s N=%d", mode, ng), "njobs": k})
 	}
 }
 
